@@ -131,9 +131,8 @@ def analyse(ctx, tool, hs, do_shrink=True):
         if fails:
             report_monitor(ctx, tool, h, fails, do_shrink)
         if m.upd_open:
-            classes["update-during-run (monitor only)"] = classes.get("update-during-run (monitor only)", 0) + 1
-        else:
-            in_domain.append(h)
+            classes["update-during-run"] = classes.get("update-during-run", 0) + 1
+        in_domain.append(h)
         cov["evaluations"] += sum(len(s["per"]) * (7 + len(s["reqs"])) for s in h["steps"])
     cov["_shard"] = cov.get("_shard", 0) + 1
     bad, prem = HL.model_check(ctx, in_domain, tag="s%d_" % cov["_shard"])
@@ -155,6 +154,7 @@ def analyse(ctx, tool, hs, do_shrink=True):
 
 
 def run(ctx, replay_inputs=None):
+    HL.authoritative_known(ctx)
     ctx.proofs(extra=["Hist/Check.vo", "Hist/CheckPrem.vo"])
     tool, out, _ = vlib.go_build("hist", ctx.scratch)
     if tool is None:
@@ -194,14 +194,14 @@ def run(ctx, replay_inputs=None):
     ctx.cov["trusted_base"] += [
         "Section variables of the theorems: loc (data directory without glob characters or stamp-like substrings), dirhash (md5) with the premise that directory names of distinct DAGs differ",
         "re-implemented library semantics: filepath.Match/Glob (Hist/GoMatch.v), the time-stamp regexp scan, sort.Slice as stable insertion sort (<= 12 files per DAG), strings.Replace/TrimSuffix, bufio.Writer 4096 split, O_APPEND appends",
-        "model domain: no second descriptor appends to the file of a run that is still open (update-during-run histories go through the monitor only); at most 12 history files per DAG directory",
+        "model domain: at most 12 history files per DAG directory (sort.Slice is an insertion sort there), ASCII names; cache eviction not modelled",
         "monitor: the run-map specification re-implemented in python (tools/props/hist_lib.py)",
     ]
     ctx.assumptions = [
-        "request ids of one DAG distinct in their first 8 characters; start stamps of one DAG pairwise distinct at seconds (the granularity the ordering sees)",
-        "safe names: the DAG base name has no * ? [ \\ and no substring shaped like a time stamp; directory names pairwise distinct; a path is never re-created",
-        "a run that was opened but has no status yet occupies its slot: latest = error, recent skips it (reading of the property, see Hist/Spec.v)",
-        "no manual update on a run that is still being recorded (C20 guards it at the API); mtimes positive",
+        "request ids of one DAG pairwise distinct; start stamps of one DAG pairwise distinct (milliseconds); a path is never re-created",
+        "per-path string premises names_okb (evaluated on every generated history; they hold for the hazardous names too since 8ffc003/e6d6379)",
+        "a run that was opened but has no status yet is not listed (readers skip it since 3aa388e)",
+        "rename to a different DAG; rename/retention not applied to the DAG whose run is being recorded (proof simplifications; covered by the differential run)",
     ]
     if ctx.tier == "thorough":
         ctx.coqchk()
